@@ -8,6 +8,7 @@
    utterance lengths [lens] and the epoch's order. *)
 From Coq Require Import List Arith Bool ZArith Lia Sorting.Sorted Sorting.Permutation.
 From PV Require Import C14.Model C14.Spec C14.Proofs.
+From PV Require MiniPy.Syntax MiniPy.Interp Gen.C14Src C14.SrcRun C14.Tie.
 Import ListNotations.
 
 (* ===== clause 1: the bucketing sampler ================================================== *)
@@ -341,3 +342,32 @@ Proof.
   vm_compute. split; [|repeat split].
   repeat constructor; unfold wf_utt; cbn; intros a Ha; inversion Ha; reflexivity.
 Qed.
+
+(* ---- the tie to the source text ----------------------------------------------------------
+   PV.Gen.C14Src.bbs_iter is regenerated from /repo/src/pydrobert/torch/_dataloaders.py
+   (BucketBatchSampler.__iter__) on every run by harness/py2coq/translate.py; PV.MiniPy.Interp
+   is the semantics of the translated subset.  Interpreting the regenerated term yields - as the
+   generator's "yield" events, in order - exactly the batches of Model.bucket_iter, and raises
+   RuntimeError exactly when the model returns None: for every sampler order, every bucket map
+   and size map (given as arbitrary Python dicts that contain the sampled indices), both drop
+   settings.  So the sampler theorems above are theorems about the source. *)
+Theorem c14_source_bucket_iter_is_model : forall bk sz s d1 d2 drop,
+  Tie.tables_ok bk sz d1 d2 s ->
+  match bucket_iter bk sz drop s with
+  | Some ys =>
+      exists st', Interp.run SrcRun.ext_none C14Src.bbs_iter (SrcRun.self_vars s d1 d2 drop) = Interp.Ok Syntax.VNone st' /\
+                  Interp.events st' = map SrcRun.yield_ev ys
+  | None =>
+      exists st', Interp.run SrcRun.ext_none C14Src.bbs_iter (SrcRun.self_vars s d1 d2 drop)
+                  = Interp.Exc SrcRun.runtime_error st'
+  end.
+Proof. exact Tie.bbs_iter_tie. Qed.
+Print Assumptions c14_source_bucket_iter_is_model.
+
+Theorem c14_source_every_index_once : forall bk sz s d1 d2 out,
+  Tie.tables_ok bk sz d1 d2 s -> bucket_iter bk sz false s = Some out ->
+  exists st', Interp.run SrcRun.ext_none C14Src.bbs_iter (SrcRun.self_vars s d1 d2 false) = Interp.Ok Syntax.VNone st' /\
+              Interp.events st' = map SrcRun.yield_ev out /\
+              forall x, count_occ Nat.eq_dec (concat out) x = count_occ Nat.eq_dec s x.
+Proof. exact Tie.source_every_index_once. Qed.
+Print Assumptions c14_source_every_index_once.
